@@ -422,6 +422,10 @@ PINS = {
         "    if nm != cov.shape[0]:\n        raise ValueError('expected %d mean values, got %d' % (npar, nm))\n"
         "M = numpy.linalg.cholesky(cov)\nr = dist(npar * n).reshape(npar, n)\nV = numpy.dot(M, r)\nif means is not None:\n"
         "    for i in range(npar):\n        V[i, :] += means[i]\nreturn V.T",
+    # ModelLoops.up_loop / down_loop (and Model.atbound, C19_atbound_loops_terminate) for minval=0, maxval=360
+    ("esutil/coords.py", None, "atbound"):
+        "w, = np.where(longitude < minval)\nwhile w.size > 0:\n    longitude[w] += 360.0\n    w, = np.where(longitude < minval)\n"
+        "w, = np.where(longitude > maxval)\nwhile w.size > 0:\n    longitude[w] -= 360.0\n    w, = np.where(longitude > maxval)\nreturn",
     # ModelQ.ri_accepts / Spec.ri_ok: choice(imax, size=nrand, replace=not unique)
     ("esutil/random.py", None, "random_indices"):
         "if rng is None:\n    rng = numpy.random.default_rng(seed)\nif not unique:\n    replace = True\nelse:\n    replace = False\n"
